@@ -188,6 +188,7 @@ def apiLine (line : String) : String :=
     | some cs => parseOut (parse cs)
     | none => "err err"
   | "chunk" :: _ => "skipped"
+  | "seq" :: _ => "skipped"
   | "typed" :: _ => "skipped"
   | _ => "bad-op"
 
@@ -306,6 +307,40 @@ def field (out : String) (k : String) : Option String :=
 /-- `none` (bare decoder at EOF: no frame) is treated as an error. -/
 def noneIsErr (s : String) : String := if s == "none" then "err" else s
 
+/-- Does the word carry the token `t` as a result (`t`, `k=t`, `cutN:t`, or an element of a `|` list)? -/
+def hasTok (t : String) (w : String) : Bool :=
+  (w.splitOn "|").any fun x => x == t || x.endsWith ("=" ++ t) || x.endsWith (":" ++ t)
+
+/-- A result list of a `seq` line (`-` = empty). -/
+def seqList (s : String) : List String := if s == "-" then [] else s.splitOn "|"
+
+/-- `same` stands for the uncut list; `cutK:<list>` carries its own. -/
+def seqCutList (c whole : String) : String :=
+  if c == "same" then whole else ":".intercalate ((c.splitOn ":").drop 1)
+
+/-- Several documents through ONE decoder: every document that is UTF-8 must come out as the one-shot parser says
+(`none` = no frame at the end of the input counts as an error), whatever stood before it and however the sequence was
+cut.  A wrong answer behind an erroneous document is the decoder's state leaking from one document into the next. -/
+def seqVerdictOne (valid : List Bool) (ones : List String) (l : List String) : Option String :=
+  if l.length != ones.length then
+    -- results missing (or too many): the stream stalled or lost its framing.  Behind a document that is not UTF-8 this
+    -- is the leaked state again (an empty frame met by a stale parser answers `None` and the decoder waits for input)
+    some (if (valid.take (l.length + 1)).any (!·) then "decoder-state-leaked-after-bad-utf8" else "decoder-frame-count")
+  else
+  let rec go (i : Nat) (vs : List Bool) (os ls : List String) (badUtf8 err : Bool) : Option String :=
+    match vs, os, ls with
+    | v :: vs', o :: os', r :: ls' =>
+      if v && noneIsErr r != o then
+        some (if badUtf8 then "decoder-state-leaked-after-bad-utf8"
+          else if err then "decoder-state-leaked-after-error"
+          else if i = 0 then "decoder-vs-oneshot" else "decoder-state-leaked")
+      else go (i + 1) vs' os' ls' (badUtf8 || !v) (err || o == "err")
+    | _, _, _ => none
+  go 0 valid ones l false false
+
+def seqVerdict (valid : List Bool) (ones : List String) (ls : List String) : Option String :=
+  ls.findSome? fun l => seqVerdictOne valid ones (seqList l)
+
 structure Mon where
   dummy : Unit := ()
 
@@ -320,8 +355,8 @@ def Mon.step (m : Mon) (op out : String) : Mon × Option String :=
     | ["parse", h] => charsOfHex h
     | ["chunk", h, _] => charsOfHex h
     | _ => none
-  if (words out).any (fun w => w == "hang" || w.endsWith "=hang" || w.endsWith ":hang") then (m, some "hang")
-  else if (words out).any (fun w => w == "panic" || w.endsWith "=panic" || w.endsWith ":panic") then
+  if (words out).any (hasTok "hang") then (m, some "hang")
+  else if (words out).any (hasTok "panic") then
     (m, some (match ws with
       | ["cycle", s, e] =>
         panicReason (match styleOf s, vdec e with | some st, some v => some (print st v) | _, _ => none)
@@ -360,6 +395,13 @@ def Mon.step (m : Mon) (op out : String) : Mon × Option String :=
         else if wl != one then (m, some "decoder-vs-oneshot")
         else if noneIsErr raw != wl then (m, some "bare-vs-lendelim")
         else (m, none)
+    | _, _, _, _, _ => (m, some "malformed-line")
+  | ["seq", hs, _] =>
+    match field out "one", field out "wl", field out "wlc", field out "raw", field out "rawc" with
+    | some one, some wl, some wlc, some raw, some rawc =>
+      let valid : List Bool := (hs.splitOn ".").map fun h => ((bytesOfHex h).bind charsOfBytes).isSome
+      let ones := one.splitOn "|"
+      (m, seqVerdict valid ones [wl, raw, seqCutList wlc wl, seqCutList rawc raw])
     | _, _, _, _, _ => (m, some "malformed-line")
   | "typed" :: _ =>
     if (words out).all (· == "same") then (m, none) else (m, some "typed-roundtrip")
